@@ -17,6 +17,8 @@ NPD = PyodaConstants.NANOSECONDS_PER_DAY
 
 
 def ref_date(y, m, d):
+    if y < 0:
+        return f"-{-y:04}-{m:02}-{d:02}"
     return f"{y:04}-{m:02}-{d:02}"
 
 
@@ -37,9 +39,11 @@ def ref_time(hh, mi, ss, f, nine=False):
     return f"{hh:02}:{mi:02}:{ss:02}" + ref_fraction(f, nine)
 
 
-@lemma({"y": int, "m": int, "d": int}, params=[[1, 0], [2, 0], [3, 0]] + [[4, mm] for mm in range(1, 13)], budget=300, thorough_budget=1200, per_path=40,
-       bounds="every valid ISO date with a year of the given number of digits in 1..9999 (the domain shared with the standard library): "
-              "LocalDatePattern.iso writes exactly the zero-padded yyyy-mm-dd text and reads that text back to the same date")
+@lemma({"y": int, "m": int, "d": int}, params=[[1, 0], [2, 0], [3, 0]] + [[4, mm] for mm in range(1, 13)] + [[-k, 0] for k in (1, 2, 3, 4)], budget=300,
+       thorough_budget=1200, per_path=40,
+       bounds="every valid ISO date with a year of the given number of digits in 1..9999 (the domain shared with the standard library), and "
+              "beyond it every negative year -1..-9998 by digit count (ISO 8601 expanded form: sign + at least four digits): "
+              "LocalDatePattern.iso writes exactly the zero-padded [-]yyyy-mm-dd text and reads that text back to the same date")
 def date_iso(P):
     from props import calsetup as cs
     from props import ymdrecord
@@ -48,7 +52,11 @@ def date_iso(P):
     pat = LocalDatePattern.iso
 
     def h(y, m, d):
-        assume(10 ** (P[0] - 1) <= y < 10 ** P[0])
+        if P[0] > 0:
+            assume(10 ** (P[0] - 1) <= y < 10 ** P[0])
+        else:
+            assume(10 ** (-P[0] - 1) <= -y < 10 ** (-P[0]))
+            assume(y >= -9998)
         assume(1 <= m <= 12)
         if P[1]:
             assume(m == P[1])                      # four-digit years: one partition per month
